@@ -122,7 +122,34 @@ def s_nested_groups(ctx, vh, rng):
         doc = "import qmluic.QtWidgets\nQWidget {\n    QCheckBox { id: srcB }\n    QSpinBox { id: srcI }\n    %s {\n        id: view\n%s\n    }\n}\n" % (cls, body)
         docs.append(doc)
         metas.append((hdr, leaves, style))
-    # a gadget inside a gadget on an ordinary widget: palette-free variant through sizePolicy is not nestable; use font inside header only
+    # signal handlers written inside a group (nested object map, grouped value, attached type): wired or diagnosed, never dropped
+    hdocs = []
+    for (cls, hdr) in hosts:
+        for other in ("", "stretchLastSection: true", "stretchLastSection: srcB.checked"):
+            for style in ("block", "dotted"):
+                h = "onSectionClicked: function(index: int) { srcB.toggle() }"
+                if style == "block":
+                    body = "        %s {\n            %s\n            %s\n        }" % (hdr, other, h)
+                else:
+                    body = ("        %s.%s\n" % (hdr, other) if other else "") + "        %s.%s" % (hdr, h)
+                hdocs.append(("import qmluic.QtWidgets\nQWidget {\n    QCheckBox { id: srcB }\n    %s {\n        id: view\n%s\n    }\n}\n" % (cls, body), h, "SectionClicked"))
+    for h, key in (("font.onFooBar: srcB.toggle()", "FooBar"), ("QLayout.onFooBar: srcB.toggle()", "FooBar")):
+        hdocs.append(("import qmluic.QtWidgets\nQWidget {\n    QCheckBox { id: srcB }\n    QVBoxLayout {\n        QLabel {\n            id: view\n            %s\n        }\n    }\n}\n" % h, h, key))
+    hout = qml.run_docs(vh, [d for d, _, _ in hdocs], mode="generate")
+    for (doc, h, key), res in zip(hdocs, hout):
+        ctx.count(doc, True)
+        ctx.dist("nested-handler")
+        if not isinstance(res, dict) or "diags" not in res:
+            ctx.violation("no result for a nested handler document: %s" % str(res)[:200], {"qml": doc, "impl_output": str(res)[:500]})
+            continue
+        pos = doc.find(h.split(":")[0])
+        end = doc.find("\n", pos) if "{" not in h else doc.find("}", pos) + 1
+        lo = doc.rfind("\n", 0, pos)
+        diagnosed = any(d["kind"] == "error" and lo <= d["start"] and d["end"] <= end + 1 for d in res["diags"])
+        wired = bool(res.get("header")) and _re.search(r"\bvoid on\w*%s\(" % key, res["header"]) is not None
+        if not (wired or diagnosed):
+            ctx.violation("a signal handler written inside a group is neither wired in the header nor diagnosed inside its text: %s" % h,
+                          {"qml": doc, "impl_output": {"header": res.get("header"), "diags": res["diags"]}, "theorem_or_correspondence": "never in neither (handlers in groups) / S"})
     out = qml.run_docs(vh, docs, mode="generate")
     for doc, (hdr, leaves, style), res in zip(docs, metas, out):
         ctx.count(doc, True)
